@@ -117,12 +117,12 @@ PROPS = {
         technique="Lean 4 theorems over an executable model + differential correspondence with the Go code",
     ),
     "C05": dict(
-        modules=["SpatialId.Props.C05", "SpatialId.Props.Tie.Shift", "SpatialId.Props.Tie.Offset", "SpatialId.Props.Tie.VZoom"],
+        modules=["SpatialId.Props.C05", "SpatialId.Props.C10Parse", "SpatialId.Props.Tie.Shift", "SpatialId.Props.Tie.Offset", "SpatialId.Props.Tie.VZoom"],
         families=[("ovE", 10000, 60000), ("ovEA", 5000, 30000), ("ovS", 10000, 60000), ("ovSA", 5000, 30000)],
         trusted_base=COMMON_TB + [
             "multidimensional-radix-tree (third party) is an oracle: IsOverlap(q) holds iff a stored key is a prefix of q or "
             "q a prefix of it; it panics only on an empty tree (guarded since the D3 fix)"],
-        assumptions=["printing an ID is injective (Go compares printed IDs, the model compares voxels)"],
+        assumptions=["Go compares printed IDs where the model compares voxels: printing is injective on int64 components (theorem C10Parse.id_injective)"],
         claim="Theorems (Props/C05.lean): for well-formed IDs the extended check answers true exactly when the two regions of "
               "R^3 share a point (ext_iff_meet), equivalently ancestor-or-equal on both axes; symmetric; reflexive; array form "
               "= disjunction of the pairwise form, false on an empty list; the spatial-ID check, relative to the abstract "
